@@ -1050,6 +1050,42 @@ pub fn deep_chain(rng: &mut Rng, be: bool, asz: u8, depth: usize) -> (Vec<u8>, V
     (ab.v, info.v)
 }
 
+/// Size knob for expression nesting: one unit whose root DIE has a DW_AT_location exprloc made
+/// of `depth` nested DW_OP_entry_value operations around a DW_OP_reg0.
+pub fn deep_expr(rng: &mut Rng, be: bool, asz: u8, depth: usize) -> (Vec<u8>, Vec<u8>) {
+    let version = *rng.pick(&[4u16, 5, 5]);
+    let op = if version >= 5 { 0xa3u8 } else { 0xf3 };
+    // built from the inside out: prefixes (opcode + length of everything inside)
+    let mut prefixes: Vec<Vec<u8>> = Vec::with_capacity(depth);
+    let mut len = 1usize;
+    for _ in 0..depth {
+        let mut p = Asm::new(be);
+        p.u8(op).uleb(len as u64);
+        len += p.v.len();
+        prefixes.push(p.v);
+    }
+    let mut expr = Vec::with_capacity(len);
+    for p in prefixes.iter().rev() {
+        expr.extend_from_slice(p);
+    }
+    expr.push(0x50);
+    let mut ab = Asm::new(be);
+    // 1: compile unit, no children, DW_AT_location exprloc (or block for v4)
+    ab.uleb(1).uleb(0x11).u8(0).uleb(0x02).uleb(if version >= 4 { 0x18 } else { 0x09 }).u8(0).u8(0);
+    ab.u8(0);
+    let mut info = Asm::new(be);
+    let tok = info.begin_len(false);
+    info.u16(version);
+    if version >= 5 {
+        info.u8(1).u8(asz).u32(0);
+    } else {
+        info.u32(0).u8(asz);
+    }
+    info.uleb(1).uleb(expr.len() as u64).bytes(&expr);
+    info.end_len(tok, 0);
+    (ab.v, info.v)
+}
+
 pub fn info_lists(rng: &mut Rng, be: bool, asz: u8, dwo: bool) -> std::collections::BTreeMap<String, Vec<u8>> {
     let version = *rng.pick(&[2u16, 3, 4, 4, 4, 5, 5, 5]);
     info_lists_with(rng, be, asz, dwo, version, None)
